@@ -1,0 +1,43 @@
+//! Verification hooks. This module and every call into it are compiled
+//! only with `--cfg agdb_verif`; without the flag nothing changes.
+//!
+//! The execution of a committed cluster action can be traced and delayed:
+//! `AGDB_VERIF_EXEC_TRACE` names a file that receives a `start <index>` line
+//! before and an `end <index>` line after each execution, and
+//! `AGDB_VERIF_EXEC_DELAYS` holds a comma separated list of delays in
+//! milliseconds; the task executing log index `i` first sleeps for
+//! `delays[i % delays.len()]`.
+
+use std::io::Write;
+use std::time::Duration;
+
+fn trace(what: &str, index: u64) {
+    if let Ok(path) = std::env::var("AGDB_VERIF_EXEC_TRACE")
+        && let Ok(mut file) = std::fs::OpenOptions::new()
+            .create(true)
+            .append(true)
+            .open(path)
+    {
+        let _ = writeln!(file, "{what} {index}");
+    }
+}
+
+pub(crate) async fn before_execution(index: u64) {
+    if let Ok(delays) = std::env::var("AGDB_VERIF_EXEC_DELAYS") {
+        let delays: Vec<u64> = delays
+            .split(',')
+            .filter_map(|d| d.trim().parse().ok())
+            .collect();
+
+        if !delays.is_empty() {
+            let delay = delays[index as usize % delays.len()];
+            tokio::time::sleep(Duration::from_millis(delay)).await;
+        }
+    }
+
+    trace("start", index);
+}
+
+pub(crate) fn after_execution(index: u64) {
+    trace("end", index);
+}
